@@ -152,6 +152,11 @@ fn classify(run: &str) -> Result<Tok, Lexed> {
     if is_initial(cs[0]) {
         return if cs[1..].iter().all(|c| is_subsequent(*c)) { Ok(Tok::Ident(run.to_string())) } else { Err(Lexed::Malformed("bad character in identifier")) };
     }
+    if cs[0] == '@' {
+        // R7RS has no token that starts with @; the implementation reads one as an identifier.
+        // An extension on text outside the lexical grammar: not judged
+        return Err(Lexed::Unsupported("atom starting with @ (outside the R7RS lexical grammar)"));
+    }
     Err(Lexed::Malformed("unexpected character"))
 }
 
